@@ -21,10 +21,10 @@ class DS(EventDataset):
 
 BASE = DS()
 
-# (entry, kind) combinations; kinds: 0 str 1 int 2 float 3 bool 4 None 5 bytes 6 list 7 tuple 8 dict 9 nested
+# (entry, kind) combinations; kinds: 0 str 1 int 2 float 3 bool 4 None 5 bytes 6 list 7 tuple 8 dict 9 nested 10 one-item tuple 11 one-item / empty tuples inside containers
 ENTRIES = ["as_ast", "MetaData.value", "MetaData.key", "AsPandasDF.columns", "AsPandasDF.column", "AsROOTTTree.filename", "AsROOTTTree.treename",
            "AsROOTTTree.columns", "AsParquetFiles.filename", "AsParquetFiles.columns", "AsAwkwardArray.columns", "AsAwkwardArray.column"]
-COMBOS = [(0, k) for k in range(10)] + [(1, k) for k in range(10)] + [(e, 0) for e in range(2, 12)]
+COMBOS = [(0, k) for k in range(12)] + [(1, k) for k in range(12)] + [(e, 0) for e in range(2, 12)]
 
 
 def mkstr(idx, n):
@@ -51,6 +51,10 @@ def value(kind, s, ki):
         return (k, None, True, s)
     if kind == 8:
         return {s: k, "q": s}
+    if kind == 10:
+        return (s,)
+    if kind == 11:
+        return [(k,), (), {"t": ((k,),)}]
     return {"a": [s, (s, FLOATS[ki % len(FLOATS)])], "b": {s: [None, False]}}
 
 
@@ -96,8 +100,8 @@ def embed(entry, v):
 def body_a(code, i0, i1, i2, n, ki, maxn):
     code = pick(code, max(LO, 0), min(HI, len(COMBOS)))
     entry, kind = COMBOS[code]
-    uses_s = kind in (0, 5, 6, 7, 8, 9)
-    uses_k = kind in (1, 2, 3, 6, 7, 8, 9)
+    uses_s = kind in (0, 5, 6, 7, 8, 9, 10)
+    uses_k = kind in (1, 2, 3, 6, 7, 8, 9, 11)
     n = pick(n, 0, maxn + 1) if uses_s else 0
     idx = [pick(i0, 0, NA) if n >= 1 else 0, pick(i1, 0, NA) if n >= 2 else 0, pick(i2, 0, NA) if n >= 3 else 0]
     if uses_k and kind not in (1, 2) and ki >= 3:
@@ -122,7 +126,7 @@ def body_a(code, i0, i1, i2, n, ki, maxn):
 
 def c13a(code: int, i0: int, i1: int, i2: int, n: int, ki: int) -> str:
     """
-    pre: LO <= code < HI and 0 <= code < 30
+    pre: LO <= code < HI and 0 <= code < 34
     pre: 0 <= i0 < 20 and 0 <= i1 < 20 and 0 <= i2 < 20 and 0 <= n <= 2 and 0 <= ki < 9
     post: (_ == '') != TWIN
     """
@@ -131,7 +135,7 @@ def c13a(code: int, i0: int, i1: int, i2: int, n: int, ki: int) -> str:
 
 def c13a3(code: int, i0: int, i1: int, i2: int, n: int, ki: int) -> str:
     """
-    pre: LO <= code < HI and 0 <= code < 30
+    pre: LO <= code < HI and 0 <= code < 34
     pre: 0 <= i0 < 20 and 0 <= i1 < 20 and 0 <= i2 < 20 and 0 <= n <= 3 and 0 <= ki < 9
     post: (_ == '') != TWIN
     """
@@ -177,6 +181,21 @@ def _glob():
     return lambda e: e.g(G_CAP)
 
 
+def Select(f):
+    "the library finds a lambda's source among the arguments of calls named like the operator it was handed to"
+    return f
+
+
+def _outer_nested(cap):
+    return Select(lambda e: e.jets.Select(lambda j: j.pt + cap))
+
+
+G_TWICE = 0
+
+
+def uses_global_twice(e): return e.met == G_TWICE  # noqa: E704
+
+
 SRC_CLOSURE = ast.parse("lambda e: e.f(cap) + cap").body[0].value
 OK_TYPES = (str, int, float, bool, complex, bytes)
 Val = Union[int, bool, str, float, bytes]
@@ -191,13 +210,13 @@ def consts(n):
 
 def c13b(code: int, alt: int, v: Val) -> str:
     """
-    pre: LO <= code < HI and 0 <= code < 5
+    pre: LO <= code < HI and 0 <= code < 7
     pre: 0 <= alt <= 7
     pre: not isinstance(v, str) or len(v) <= 3
     pre: not isinstance(v, bytes) or len(v) <= 3
     post: (_ == '') != TWIN
     """
-    code = pick(code, max(LO, 0), min(HI, 5))
+    code = pick(code, max(LO, 0), min(HI, 7))
     alt = pick(alt, 0, 8)
     if alt > 0:
         v = ALT[alt - 1]
@@ -219,6 +238,14 @@ def c13b(code: int, alt: int, v: Val) -> str:
             emitted = _rewrite_captured_vars(global_getclosurevars(f)).visit(ast.parse("lambda e: e.f(cap) + cap").body[0].value)
             check_ast(emitted)
             want = 2
+        elif code == 5:    # the whole public path, real function object: closure variable used only inside the lambda of a nested Select on an untyped sequence
+            emitted = DS().Select(_outer_nested(v)).query_ast.args[1]
+        elif code == 6:    # the whole public path, the same function object used a second time after the global it reads has changed
+            g = uses_global_twice.__globals__
+            g["G_TWICE"] = 777
+            DS().Where(uses_global_twice)
+            g["G_TWICE"] = v
+            emitted = DS().Where(uses_global_twice).query_ast.args[1]
         else:              # captured module global
             f = _glob()
             f.__globals__["G_CAP"] = v
@@ -247,7 +274,7 @@ def c13b(code: int, alt: int, v: Val) -> str:
             for t in (bool, int, float, str, bytes):
                 if isinstance(c.value, t) != isinstance(v, t):
                     same_type = False
-            if same_type and c.value == v:
+            if same_type and (c.value == v or (isinstance(v, float) and v != v and c.value != c.value)):    # a copy of NaN is NaN
                 eq += 1
         if eq < want:
             return "embedded value missing or altered"
